@@ -131,13 +131,14 @@ Fixpoint cat_getall (rs : list gres) : gres :=
   | e :: _ => e
   end.
 
-(* is the attribute getall_x available (hasattr)?  With the fix, KDSubset/KDConcatDataset
-   look the attribute up on what they wrap before answering *)
+(* is the attribute getall_x available (hasattr)?  With the fixes, KDSubset/KDConcatDataset
+   look the attribute up on what they wrap before answering, and a balanced (endless)
+   KDConcatDataset does not offer getall_* at all (AttributeError, checked first) *)
 Fixpoint has_getall (s : stack) : bool :=
   match s with
   | Root _ _ pk => match pk with PNone => false | _ => true end
   | Sub _ _ s' => has_getall s'
-  | Cat _ parts => forallb has_getall parts
+  | Cat b parts => negb b && forallb has_getall parts
   | Wrap _ s' => has_getall s'
   end.
 
@@ -154,7 +155,8 @@ Fixpoint getall (s : stack) : gres :=
       | GOk _ r => match all_some (map (py_nth r) idxs) with Some l => GOk true l | None => GErr end
       | e => e
       end
-  | Cat _ parts => if forallb has_getall parts then cat_getall (map getall parts) else GMissing
+  | Cat b parts => if b then GMissing
+                   else if forallb has_getall parts then cat_getall (map getall parts) else GMissing
   | Wrap _ s' => getall s'
   end.
 
